@@ -12,48 +12,32 @@ Theorem c14_size_is_length : forall (raw : str) (rows : list row) (b : str),
 Proof. exact size_is_length. Qed.
 Print Assumptions c14_size_is_length.
 
-(** (b) BODY[HEADER] ++ BODY[TEXT] = BODY[] holds exactly for the texts
-    outside the finding class header_blank_line, i.e. texts WITHOUT a blank
-    line; for every text with a blank line it fails, by exactly the two
-    octets of the blank line. *)
-Theorem c14_header_text : forall raw : str,
-  header_text_ok raw = true <-> classify_msg raw = None.
-Proof. exact header_text_all. Qed.
+(** (b) BODY[HEADER] ++ BODY[TEXT] = BODY[] for EVERY text (with or without
+    a blank line); the header section is the text up to and including the
+    first blank line.  (Unconditional since the repair of F13,
+    known_findings/C14.txt.) *)
+Theorem c14_header_text : forall raw : str, header_of raw ++ text_of raw = raw.
+Proof. exact header_text. Qed.
 Print Assumptions c14_header_text.
 
-Theorem c14_header_text_law : forall raw : str,
-  classify_msg raw = Some HeaderBlankLine -> header_of raw ++ crlf ++ text_of raw = raw.
-Proof. exact header_text_law. Qed.
-Print Assumptions c14_header_text_law.
+Theorem c14_header_text_ok : forall raw : str, header_text_ok raw = true.
+Proof. exact header_text_ok_all. Qed.
+Print Assumptions c14_header_text_ok.
 
-Theorem c14_refuted_header_blank_line :
-  exists raw, classify_msg raw = Some HeaderBlankLine /\ header_text_ok raw = false.
-Proof. exact refuted_header_text. Qed.
-Print Assumptions c14_refuted_header_blank_line.
+Theorem c14_header_ends_with_blank_line : forall (raw : str) (i : nat),
+  index raw sep4 = Some i -> header_of raw = firstn i raw ++ sep4.
+Proof. exact header_ends_with_blank_line. Qed.
+Print Assumptions c14_header_ends_with_blank_line.
 
-(** (e) a partial <o.n> on BODY[TEXT] and on numeric sections returns exactly
-    [firstn n (skipn o x)] of what the section returns without a partial, for
-    all o, n; on BODY[] and BODY[HEADER] (class partial_ignored) the partial
-    is not looked at. *)
+(** (e) a partial <o.n> on ANY section (BODY[], BODY[HEADER], BODY[TEXT],
+    numeric) returns exactly [firstn n (skipn o x)] of what the section
+    returns without a partial, for all o, n.  (Unconditional since the repair
+    of partial_ignored.) *)
 Theorem c14_partial_slice : forall raw rows s part x,
-  classify_item s part = None ->
   fetch_item raw rows s None = Some x ->
   fetch_item raw rows s part = Some (expected x part).
 Proof. exact partial_slice. Qed.
 Print Assumptions c14_partial_slice.
-
-Theorem c14_partial_ignored_law : forall raw rows s part,
-  classify_item s part = Some PartialIgnored ->
-  fetch_item raw rows s part = fetch_item raw rows s None.
-Proof. exact partial_ignored_law. Qed.
-Print Assumptions c14_partial_ignored_law.
-
-Theorem c14_refuted_partial_ignored :
-  exists raw s o n x, classify_item s (Some (o, n)) = Some PartialIgnored /\
-    fetch_item raw [] s None = Some x /\
-    fetch_item raw [] s (Some (o, n)) <> Some (slice_spec x o n).
-Proof. exact refuted_partial_ignored. Qed.
-Print Assumptions c14_refuted_partial_ignored.
 
 (** (c, size) Under the hypothesis on Go's multipart.Reader (it returns a
     part's content without the CRLF preceding the next delimiter line), the
